@@ -323,6 +323,14 @@ Proof. exact (ramp_chain K). Qed.
        size hands F.interpolate the grid's new size (ok_up_fractional, ok_up_fractional_nac). *)
 Theorem C04_traced_index_ops : traced_index_ops_ok K.
 Proof. exact (traced_index_ops_hold_K K Kf Kc). Qed.
+
+(* ImageBatch.pyramid(levels, align_corners = X) with X different from the image grid's flag samples the finest level at the
+   points of the new grid; traced: coordinates of the RETURNED grid w.r.t. X, mapped to the image grid with the cube axes of X on
+   BOTH sides (third component = X: CUBE_CORNERS iff X), grid_sample with X on the unmodified data (checked by the translator,
+   fail-closed); the lock-step of that route is C04_ramp_sample2 / C04_ramp_sample3 below. *)
+Theorem C04_traced_pyramid_axes :
+  gen_io_pyramid_axes = [(true, false, false); (false, true, true)].
+Proof. exact traced_pyramid_axes_hold. Qed.
 End Statements.
 
 Section Chains.
